@@ -170,6 +170,35 @@ func Sinf(original, scheme string, t TencParams) []byte {
 // ProtectStsd turns a clear stsd (one sample entry) into its protected form: entry type encv/enca and
 // a sinf appended to the entry's children.
 func ProtectStsd(stsd []byte, scheme string, t TencParams) []byte {
+	return ProtectStsdAt(stsd, scheme, t, -1)
+}
+
+// ProtectStsdAt is ProtectStsd with the place of the sinf box among the children of the sample entry: -1 behind the
+// last child (what mp4ff's InitProtect writes), 0 in front of the first child, k > 0 behind the k-th child (or last
+// when there are fewer). Other packagers put sinf first.
+func ProtectStsdAt(stsd []byte, scheme string, t TencParams, pos int) []byte {
+	if pos >= 0 {
+		entry := stsd[16:]
+		orig := string(entry[4:8])
+		fixed := 8 + 78 // visual sample entry
+		enc := "encv"
+		if orig == "mp4a" {
+			fixed, enc = 8+28, "enca"
+		}
+		at := fixed
+		for k := 0; k < pos && at+8 <= len(entry); k++ {
+			at += int(binary.BigEndian.Uint32(entry[at:]))
+		}
+		if at > len(entry) {
+			at = len(entry)
+		}
+		ne := append([]byte(nil), entry[:at]...)
+		ne = append(ne, Sinf(orig, scheme, t)...)
+		ne = append(ne, entry[at:]...)
+		copy(ne[4:8], enc)
+		binary.BigEndian.PutUint32(ne, uint32(len(ne)))
+		return stsdOf(ne)
+	}
 	entry := stsd[16:]
 	orig := string(entry[4:8])
 	enc := "encv"
